@@ -541,6 +541,7 @@ func VrfC11Router() {
 	svc := &vrfClusterSvc{}
 	cfg := &Config{}
 	cfg.Default()
+	cfg.Tracing = vrf_choice("tracing", 2) == 1
 	withCreds := vrf_choice("credentials_configured", 2) == 1
 	pw := vrf_nondet_string("configured_password")
 	if withCreds {
